@@ -5,7 +5,18 @@ import json, os, sys
 R = '/verif'
 def load(p, d):
     return json.load(open(p)) if os.path.isfile(p) else d
+def load(p, d):
+    return json.load(open(p)) if os.path.isfile(p) else d
 cmd, pid = sys.argv[1], sys.argv[2]
+if cmd == 'markfixed':
+    # knownctl.py markfixed <ID> <commit> <sigprefix> : flip matching 'known' entries of known_findings.json to fixed
+    commit, pref = sys.argv[3], sys.argv[4]
+    kf = load(R + '/known_findings.json', {"findings": []}); n = 0
+    for e in kf['findings']:
+        if e['property'] == pid and e['status'] == 'known' and e['signature'].startswith(pref):
+            e['status'] = 'fixed'; e['commit'] = commit; e['line'] = 'fixed: property=%s %s %s' % (pid, commit, e['what'][:160]); n += 1
+    json.dump(kf, open(R + '/known_findings.json', 'w'), indent=1)
+    print('marked fixed:', n); sys.exit(0)
 kf = load(R + '/known_findings.json', {"findings": []})
 frag_p = R + '/known/%s.json' % pid
 frag = load(frag_p, {"findings": []})
